@@ -108,9 +108,37 @@ pub fn compression_name(c: CompressionType) -> &'static str {
 }
 
 /// Write `roots` of `dom` under one compression mode; Ok(bytes) / Err(kind)
+/// The database the binary codec is configured with in this run: None = the bundled one (the default of the
+/// library), Some = a patched copy handed to Serializer / Deserializer::reflection_database.
+static ACTIVE_DB: std::sync::OnceLock<&'static rbx_reflection::ReflectionDatabase<'static>> = std::sync::OnceLock::new();
+
+/// A copy of the bundled database with other defaults for a few properties (docs/patching-database.md: a
+/// codec can be given a database of one's own).  Leaked: it lives as long as the process.
+pub fn patched_db() -> &'static rbx_reflection::ReflectionDatabase<'static> {
+    use rbx_dom_weak::types::{Color3uint8, Variant, Vector3};
+    let mut db = rbx_reflection_database::get().clone();
+    for (class, prop, value) in [
+        ("Part", "Size", Variant::Vector3(Vector3::new(9.0, 8.0, 7.0))),
+        ("Part", "Color", Variant::Color3uint8(Color3uint8::new(1, 2, 3))),
+        ("Part", "Transparency", Variant::Float32(0.5)),
+        ("TextLabel", "Text", Variant::String("PatchedDefault".into())),
+        ("TrussPart", "Size", Variant::Vector3(Vector3::new(6.0, 6.0, 6.0))),
+    ] {
+        db.classes.get_mut(class).unwrap().default_properties.insert(prop.into(), value);
+    }
+    Box::leak(Box::new(db))
+}
+
+pub fn use_patched_db() {
+    let _ = ACTIVE_DB.set(patched_db());
+}
+
 pub fn write_bin(dom: &WeakDom, roots: &[Ref], c: CompressionType) -> Result<Vec<u8>, String> {
     let mut buf = Vec::new();
-    let r = catch_unwind(AssertUnwindSafe(|| Serializer::new().compression_type(c).serialize(&mut buf, dom, roots)));
+    let r = catch_unwind(AssertUnwindSafe(|| match ACTIVE_DB.get() {
+        Some(db) => Serializer::new().reflection_database(db).compression_type(c).serialize(&mut buf, dom, roots),
+        None => Serializer::new().compression_type(c).serialize(&mut buf, dom, roots),
+    }));
     match r {
         Ok(Ok(())) => Ok(buf),
         Ok(Err(e)) => Err(format!("err:{}", e)),
@@ -119,7 +147,10 @@ pub fn write_bin(dom: &WeakDom, roots: &[Ref], c: CompressionType) -> Result<Vec
 }
 
 pub fn read_bin(data: &[u8]) -> Result<WeakDom, String> {
-    let r = catch_unwind(AssertUnwindSafe(|| rbx_binary::from_reader(data)));
+    let r = catch_unwind(AssertUnwindSafe(|| match ACTIVE_DB.get() {
+        Some(db) => rbx_binary::Deserializer::new().reflection_database(db).deserialize(data),
+        None => rbx_binary::from_reader(data),
+    }));
     match r {
         Ok(Ok(dom)) => Ok(dom),
         Ok(Err(e)) => Err(format!("err:{}", e)),
